@@ -20,7 +20,17 @@ Definition verify_mem (i : instr) : res unit :=
                | OMem (Some _) (Some _) 0 _ _ _ => Err EMemScale0
                | _ => OK tt
                end) (operands i) (OK tt).
-Definition verify (is : list instr) : res unit := fold_left (fun acc i => do _ <- acc; verify_mem i) is (OK tt).
+Definition verify_mems (is : list instr) : res unit := fold_left (fun acc i => do _ <- acc; verify_mem i) is (OK tt).
+(* VerifyLabels (added by "fix: report duplicate labels before unreferenced labels are pruned") *)
+Fixpoint verify_labels (ns : list node) (seen : list string) : res unit :=
+  match ns with
+  | [] => OK tt
+  | NLabel l :: r => if existsb (String.eqb l) seen then Err EDupLabel else verify_labels r (l :: seen)
+  | _ :: r => verify_labels r seen
+  end.
+Definition verify_nodes (check_labels : bool) (ns : list node) : res unit :=
+  do _ <- verify_mems (instructions ns); if check_labels then verify_labels ns [] else OK tt.
+Definition verify (is : list instr) : res unit := verify_mems is.
 
 (* RequiredISAExtensions: sorted unique list (sort.Strings = bytewise order) *)
 Fixpoint str_leb (a b : string) : bool :=
@@ -52,7 +62,7 @@ Definition repl_instrs (ns : list node) (is : list instr) : list node :=
                    end) ns is.
 
 Definition compile (rf : regfile) (f : func) : res compiled :=
-  do _ <- verify (instructions (fnodes f));
+  do _ <- verify_nodes true (fnodes f);
   let ns1 := prune_labels (prune_jumps (fnodes f)) in
   do tg <- label_target ns1;
   do succs <- cfg tg (instructions ns1);
